@@ -317,7 +317,6 @@ package packfile
 //gvc:  theory int
 //gvc:  opt coarse
 //gvc:  opt frame args
-//gvc:  requires objs: forall(a, 0, len(objectsToPack), objectsToPack[a] != nil)
 //gvc:  loop 1 invariant pos: it1 >= 0
 //gvc:  loop 2 invariant win: j < i
 //gvc:  sink CleanOriginal requires saved: recv.resolvedOriginal || recv.Original == nil
@@ -328,9 +327,7 @@ package packfile
 // objectsToPack: entries loaded as stored deltas (encodedDeltaObject) may lack
 // their base in the set being packed: whenever one was loaded, the delta chains
 // are fixed (fixAndBreakChains) before the list is handed on, so that no delta
-// is written without its base. An id that is asked for several times gets one
-// entry: an entry is created only for an id that does not occur earlier in the
-// request (git index-pack refuses a pack with the same object twice).
+// is written without its base.
 //gvc:func (*DeltaSelector).objectsToPack
 //gvc:  props C07
 //gvc:  theory int
@@ -339,8 +336,6 @@ package packfile
 //gvc:  results otps err
 //gvc:  loop 1 invariant pos: it1 >= 0
 //gvc:  loop 1 invariant plain: packWindow == 0 ==> calls("encodedDeltaObject") == 0
-//gvc:  loop 1 invariant seen: forall(a, 0, it1, has(seen, hashes[a]))
-//gvc:  sink newObjectToPack requires once: !exists(a, 0, it1, keyid(hashes[a]) == keyid(h))
 //gvc:  ensures fixed: err == nil && calls("encodedDeltaObject") >= 1 ==> calls("fixAndBreakChains") == 1 && lastres("fixAndBreakChains") == nil
 //gvc:end
 
@@ -359,4 +354,19 @@ package packfile
 //gvc:  opt frame args
 //gvc:  requires nn: visiting != nil
 //gvc:  sink fixAndBreakChainsOne requires progress: !has(visiting, arg1) && has(visiting, otp) && arg2 == visiting
+//gvc:end
+
+// ObjectsToPack: an id that is asked for several times gets one entry: the
+// list handed to objectsToPack has no id twice (git index-pack refuses a pack
+// in which the same object appears twice).
+//gvc:func (*DeltaSelector).ObjectsToPack
+//gvc:  props C07
+//gvc:  theory int
+//gvc:  opt coarse
+//gvc:  opt frame args
+//gvc:  loop 1 invariant distinct: forall(a, 0, len(unique), forall(b, 0, a, keyid(unique[a]) != keyid(unique[b])))
+//gvc:  loop 1 invariant seen: forall(k, has(seen, k) == exists(a, 0, len(unique), keyid(unique[a]) == k))
+//gvc:  loop 2 invariant pos: it2 >= 0
+//gvc:  loop 3 invariant pos: it3 >= 0
+//gvc:  sink objectsToPack requires unique: forall(a, 0, len(arg0), forall(b, 0, a, keyid(arg0[a]) != keyid(arg0[b])))
 //gvc:end
